@@ -126,4 +126,11 @@ class ThinPlateSplines(Alignment, Transform, Invertible):
 
         :type: ``type(self)``
         """
-        return ThinPlateSplines(self.target, self.source, kernel=self.kernel)
+        # the kernel is centred on the landmarks it was built from, so the
+        # inverse needs one of the same kind centred on its own source
+        return ThinPlateSplines(
+            self.target,
+            self.source,
+            kernel=type(self.kernel)(self.target.points),
+            min_singular_val=self.min_singular_val,
+        )
